@@ -2,5 +2,5 @@ From Coq Require Import List NArith.
 From Tink Require Import XBase Hpke Ecies.
 Require Import ExtrOcamlBasic.
 Extraction "m.ml" xb_add xb_mul xb_div_eucl
-  output_prefix public_from_private hpke_encrypt hpke_decrypt hpke_recompute
+  output_prefix public_from_private hpke_encrypt hpke_decrypt hpke_recompute encap decap key_schedule
   primitive_supported dem_iv_size ecies_encrypt ecies_decrypt ecies_recompute.
